@@ -45,6 +45,7 @@ type OpOptions struct {
 	NodeRoot      bool // node(id:) at the root with fragments
 	NodeRootPlain bool // wild: node(id:) { id }
 	AliasHelpers  bool // wild: alias id/__typename
+	NoIDVar       bool // never call a client variable `id` (C01/C02 open finding variable-named-id)
 	EntityIDArgs  bool // String/ID argument values are sometimes the id of an existing entity (what an id-hint function recognises)
 }
 
@@ -250,10 +251,16 @@ func (g *opGen) args(fd *ast.FieldDefinition) string {
 		if !a.Type.NonNull && g.r.Chance(1, 4) {
 			continue
 		}
+		nDefs, nVar := len(g.varDefs), g.nvar
 		lit, val := g.literal(a.Type)
 		if g.o.Variables && g.r.Chance(1, 2) {
+			// the literal is replaced by one variable: variables declared inside it are dropped with it
+			for k := nVar; k < g.nvar; k++ {
+				delete(g.vars, fmt.Sprintf("v%d", k))
+			}
+			g.varDefs, g.nvar = g.varDefs[:nDefs], nVar
 			vn := fmt.Sprintf("v%d", g.nvar)
-			if !g.usedIDVar && g.r.Chance(1, 8) {
+			if !g.usedIDVar && g.r.Chance(1, 8) && !g.o.NoIDVar {
 				vn = "id" // a client variable that happens to be called like the executor's own $id
 				g.usedIDVar = true
 				g.features["variable-named-id"] = true
